@@ -390,7 +390,7 @@ def tally_source(cx):
     cx.check(ok, "has_quorum", "has_quorum(set) == (self.conf.voters.vote_result(member of set) == Won)", shape=show(shape))
 
 
-@obligation("VOTE.uptodate_shape", ["C03", "C10"], floor=2, kind="exact finite truth table from return paths",
+@obligation("VOTE.uptodate_shape", ["C03", "C10", "C14"], floor=2, kind="exact finite truth table from return paths",
             why="C03 direction: nobody with a worse log may be accepted; C10 direction: an equally up-to-date candidate must be accepted, else identical logs can never elect anybody")
 def uptodate_shape(cx):
     f = cx.fn("RaftLog::is_up_to_date")
